@@ -19,6 +19,7 @@ EXPLANATION = (
     "C16.M3b: every mock-only function that rewrites the serialized text character by character is reduced to its exact finite-state transducer "
     "(the loop state is a few bool/char locals compared only with char constants) and must be equivalent, by product exploration over all reachable states, "
     "to the reference spacer that adds a space after ',' and ':' only outside JSON string literals."
+    " C16.M4: the name-encoding / template rule of C01.e re-judged on the mock_salts MIR: the deterministic mode must not change a claim's name."
 )
 ASSUMPTIONS = [
     "the interoperability tool under generate/ cannot be built offline (serde_yaml missing) and is not analysed",
